@@ -126,9 +126,9 @@ ExpGenSeq(i) == ExpGenSeqFull(i).g
 WriteJson(x) == [ids |-> [r \in 1..x.n |-> r - 1], name |-> x.name, inst |-> x.inst, lab |-> x.lab,
                  links |-> {[source |-> e.a - 1, target |-> e.b - 1, l |-> e.l] : e \in x.edges}]
 ReadJson(d) == LET n == Len(d.ids)
-                   at(r) == CHOOSE p \in 1..n : d.ids[p] = r - 1      \* position of id r-1 in the file
-               IN [n |-> n, name |-> [r \in 1..n |-> d.name[at(r)]], inst |-> [r \in 1..n |-> d.inst[at(r)]],
-                   lab |-> [r \in 1..n |-> d.lab[at(r)]],
+                   at == [r \in 1..n |-> CHOOSE p \in 1..n : d.ids[p] = r - 1]      \* position of id r-1 in the file
+               IN [n |-> n, name |-> [r \in 1..n |-> d.name[at[r]]], inst |-> [r \in 1..n |-> d.inst[at[r]]],
+                   lab |-> [r \in 1..n |-> d.lab[at[r]]],
                    edges |-> {Edge(l.source + 1, l.target + 1, l.l) : l \in d.links}]
 JsonRoundTrip(x) == ReadJson(WriteJson(x)) = x
 \* hand-written .json: names by id, nodes listed in file order `order` (a permutation), links by id
@@ -258,17 +258,10 @@ NodesOf(x, s) == LET idx == {r \in 1..x.n : x.inst[r] = s}      \* find_atoms(gr
 \* idx_nodes[int(a)]  (deviation ConnOff: idx_nodes[int(a) - 1], Python's negative index wraps around)
 Pick(x, s, a) == LET ns == NodesOf(x, s) IN
                  IF "ConnOff" \in Dev THEN (IF a = 0 THEN ns[Len(ns)] ELSE ns[a]) ELSE ns[a + 1]
-Stages == <<"macros", "connects", "ends", "labels", "write", "read", "done">>
-ListOf(st) == CASE st = "macros" -> inp.seq [] st = "connects" -> inp.connects [] st = "ends" -> inp.ends
-                [] st = "labels" -> inp.labels [] OTHER -> <<0>>
-\* stage after finishing item x of stage st
-RECURSIVE FirstNonEmpty(_)
-FirstNonEmpty(p) == IF Stages[p] \in {"write", "read", "done"} \/ Len(ListOf(Stages[p])) > 0 THEN p ELSE FirstNonEmpty(p + 1)
-PosOf(st) == CHOOSE p \in 1..Len(Stages) : Stages[p] = st
-Advance(st, x) == IF x < Len(ListOf(st)) THEN [pc |-> st, k |-> x + 1]
-                  ELSE [pc |-> Stages[FirstNonEmpty(PosOf(st) + 1)], k |-> 1]
-Move(st) == pc' = Advance(st, k).pc /\ k' = Advance(st, k).k
-
+\* after the last macro instance: one _add_edges call per connect record, then one call of
+\* _apply_termini_modifications and one of _tag_nodes (each loops over its records), then the JSON is written
+AfterMacros(x) == IF x < Len(inp.seq) THEN [pc |-> "macros", k |-> x + 1]
+                  ELSE IF Len(inp.connects) > 0 THEN [pc |-> "connects", k |-> 1] ELSE [pc |-> "ends", k |-> 1]
 AddMacro ==
   /\ pc = "macros"
   /\ LET d == inp.defs[inp.seq[k]]
@@ -279,26 +272,36 @@ AddMacro ==
               inst |-> g.inst \o [x \in 1..m.size |-> k - 1],
               lab |-> g.lab \o [x \in 1..m.size |-> {}],
               edges |-> g.edges \cup {Edge(off + p[1], off + p[2], "") : p \in m.edges}]
-  /\ Move("macros") /\ last' = "AddMacro" /\ UNCHANGED <<inp, c, mons, aux>>
+  /\ pc' = AfterMacros(k).pc /\ k' = AfterMacros(k).k
+  /\ last' = "AddMacro" /\ UNCHANGED <<inp, c, mons, aux>>
 AddConnect ==
   /\ pc = "connects"
   /\ LET r == inp.connects[k]
          js == IF "ConnWrongInst" \in Dev THEN r.i ELSE r.j
      IN g' = [g EXCEPT !.edges = @ \cup {Edge(Pick(g, r.i, r.pairs[y][1]), Pick(g, js, r.pairs[y][2]), "") : y \in 1..Len(r.pairs)}]
-  /\ Move("connects") /\ last' = "AddConnect" /\ UNCHANGED <<inp, c, mons, aux>>
+  /\ IF k < Len(inp.connects) THEN pc' = pc /\ k' = k + 1 ELSE pc' = "ends" /\ k' = 1
+  /\ last' = "AddConnect" /\ UNCHANGED <<inp, c, mons, aux>>
+\* the terminal residues are determined once, then the records are applied in order
+RECURSIVE ApplyEnds(_, _, _)
+ApplyEnds(names, recs, ter) ==
+  IF recs = <<>> THEN names
+  ELSE ApplyEnds([x \in 1..Len(names) |-> IF x \in ter /\ g.inst[x] = Head(recs).i THEN Head(recs).name ELSE names[x]], Tail(recs), ter)
 ModTer ==
   /\ pc = "ends"
-  /\ LET r == inp.ends[k]
-         ter == {x \in 1..g.n : Deg(g.edges, x) = (IF "TerDeg0" \in Dev THEN 0 ELSE 1)}
-     IN g' = [g EXCEPT !.name = [x \in 1..g.n |-> IF x \in ter /\ g.inst[x] = r.i THEN r.name ELSE g.name[x]]]
-  /\ Move("ends") /\ last' = "ModTer" /\ UNCHANGED <<inp, c, mons, aux>>
+  /\ LET ter == {x \in 1..g.n : Deg(g.edges, x) = (IF "TerDeg0" \in Dev THEN 0 ELSE 1)}
+     IN g' = [g EXCEPT !.name = ApplyEnds(g.name, inp.ends, ter)]
+  /\ pc' = "labels" /\ last' = "ModTer" /\ UNCHANGED <<inp, k, c, mons, aux>>
+RECURSIVE ApplyLabels(_, _)
+ApplyLabels(labs, recs) ==
+  IF recs = <<>> THEN labs
+  ELSE LET r == Head(recs)
+           skip == IF "LabelSkipFirst" \in Dev THEN {y \in 1..g.n : g.inst[y] = r.i /\ \A z \in 1..g.n : g.inst[z] = r.i => y <= z} ELSE {}
+       IN ApplyLabels([x \in 1..Len(labs) |-> IF g.inst[x] = r.i /\ x \notin skip
+                                                THEN {p \in labs[x] : p[1] # r.key} \cup {<<r.key, r.val>>} ELSE labs[x]], Tail(recs))
 Label ==
   /\ pc = "labels"
-  /\ LET r == inp.labels[k]
-         skip == IF "LabelSkipFirst" \in Dev THEN {y \in 1..g.n : g.inst[y] = r.i /\ \A z \in 1..g.n : g.inst[z] = r.i => y <= z} ELSE {}
-     IN g' = [g EXCEPT !.lab = [x \in 1..g.n |-> IF g.inst[x] = r.i /\ x \notin skip
-                                                  THEN {p \in g.lab[x] : p[1] # r.key} \cup {<<r.key, r.val>>} ELSE g.lab[x]]]
-  /\ Move("labels") /\ last' = "Label" /\ UNCHANGED <<inp, c, mons, aux>>
+  /\ g' = [g EXCEPT !.lab = ApplyLabels(g.lab, inp.labels)]
+  /\ pc' = "write" /\ last' = "Label" /\ UNCHANGED <<inp, k, c, mons, aux>>
 Write ==
   /\ pc = "write"
   /\ aux' = WriteJson(g) /\ pc' = "read" /\ last' = "Write" /\ UNCHANGED <<inp, k, c, mons, g>>
@@ -380,8 +383,8 @@ OrigKept == (inp.fam = "dsdna" /\ pc \in {"cwalk", "done"}) =>
                /\ \A r \in 1..s.n : g.name[r] = s.name[r]
                /\ {e \in g.edges : e.b <= s.n} = s.edges
                /\ ~\E e \in g.edges : e.a <= s.n /\ e.b > s.n
-\* laws of the P-layer itself (evaluated once per input)
-Laws == (last = "Init") =>
+\* laws of the P-layer itself (evaluated once per input, when its run has finished)
+Laws == (pc \in {"done", "rejected"}) =>
           /\ (inp.fam = "dsdna" /\ ~Rejected(inp) =>
                 LET s == Strand(inp) x == Complement(s) IN
                 /\ WellFormed(x) /\ x.n = 2 * s.n
